@@ -50,3 +50,22 @@ def widths(tier, seed=0, quick=None):
         if x not in w:
             w.append(x)
     return sorted(w)
+
+
+def from_library(e):
+    """True when exception `e` was raised inside the repository (a frame of the repository below the last /verif frame).
+    Families that turn 'the library raised' into a failed obligation call this first, so that a bug of the harness itself
+    (NameError, wrong helper call, ...) is never reported - or recorded - as a defect of the library."""
+    import os
+    import traceback
+    root = os.path.dirname(os.path.dirname(os.path.abspath(__file__)))
+    repo = os.environ.get("PYVC_REPO_SRC", "/repo/src")
+    frames = [f.filename for f in traceback.extract_tb(e.__traceback__)]
+    last_verif = max([i for i, fn in enumerate(frames) if fn.startswith(root)] or [-1])
+    return any(fn.startswith(repo) for fn in frames[last_verif + 1:])
+
+
+def library_only(e):
+    """re-raise `e` unless it came out of the library"""
+    if not from_library(e):
+        raise e
